@@ -79,4 +79,52 @@ returns an empty table; neither touches the file -/
 def writerTimeoutTrace : List String := ["timeout"]
 def readerTimeoutTrace : List String := ["exists", "timeout"]
 
+/-! ### a reader that removes the lock file (not what the code does: what a change might do) -/
+
+/-- The same protocol with a reader that removes the lock file after releasing it (reader: … → 5 release →
+6 unlink → 0).  `gone` = the file the current holder locked has been unlinked: the next `acquire` creates a
+fresh file and succeeds although the lock is held. -/
+structure SU where
+  s    : S
+  gone : Bool
+
+def stepU (u : SU) (a : Actor) (c : Choice) : Option SU :=
+  let s := u.s
+  let free := !s.holder.isSome || u.gone
+  match a with
+  | .writer =>
+    match s.wpc with
+    | 0 => match c with
+      | .timeout => some { u with s := { s with version := s.version + 1 } }
+      | .go => if free then some { s := { s with holder := some .writer, wpc := 1 }, gone := false } else none
+    | 1 => some { u with s := { s with file := .torn, wpc := 2 } }
+    | 2 => some { u with s := { s with file := .complete (s.version + 1), wpc := 3 } }
+    | 3 => some { u with s := { s with wpc := 4 } }
+    | _ => some { u with s := { s with holder := if s.holder == some .writer then none else s.holder, wpc := 0,
+                                       version := s.version + 1 } }
+  | .reader =>
+    match s.rpc with
+    | 0 => if s.file == .absent then some u else some { u with s := { s with rpc := 1 } }
+    | 1 => match c with
+      | .timeout => some { u with s := { s with rpc := 0 } }
+      | .go => if free then some { s := { s with holder := some .reader, rpc := 2 }, gone := false } else none
+    | 2 => some { u with s := { s with rpc := 3 } }
+    | 3 => some { u with s := { s with reads := s.reads ++ [s.file], rpc := 4 } }
+    | 4 => some { u with s := { s with rpc := 5 } }
+    | 5 => some { u with s := { s with holder := if s.holder == some .reader then none else s.holder, rpc := 6 } }
+    | _ => some { s := { s with rpc := 0 }, gone := true }       -- os.remove(lock file)
+
+def runU (u : SU) : List (Actor × Choice) → SU
+  | [] => u
+  | (a, c) :: rest =>
+    match stepU u a c with
+    | some u' => runU u' rest
+    | none => runU u rest
+
+/-- one write, one read that ends with the release; then the writer takes the lock for the next write and
+truncates the table, the reader unlinks the lock file, comes back, gets a fresh lock and reads -/
+def tornSchedule : List (Actor × Choice) :=
+  List.replicate 5 (.writer, .go) ++ List.replicate 6 (.reader, .go) ++
+  [(.writer, .go), (.writer, .go), (.reader, .go)] ++ List.replicate 4 (.reader, .go)
+
 end MaestroVerif.Lock
